@@ -362,3 +362,91 @@ Proof.
   rewrite arclen_before in Hv by (try apply old_incr; unfold old_ts; simpl; lra).
   rewrite old_polyline_value in Hv. lra.
 Qed.
+
+(** ** parameterisation by normalised chord length: the arc length is proportional to the parameter *)
+Fixpoint chordal (L : R) (ts : list R) (ps : list vec) : Prop :=
+  match ts, ps with
+  | t0 :: ts', p0 :: ps' =>
+      match ts', ps' with
+      | t1 :: _, p1 :: _ => t1 - t0 = dist p0 p1 / L /\ chordal L ts' ps'
+      | _, _ => True
+      end
+  | _, _ => True
+  end.
+
+Lemma arclen_chordal L : 0 < L -> forall ts ps t,
+  incr ts -> length ps = length ts -> chordal L ts ps -> hd 0 ts <= t <= last ts 0 ->
+  arclen ts ps t = (t - hd 0 ts) * L.
+Proof.
+  intros HL. induction ts as [|t0 ts IH]; intros ps t Hinc Hlen Hc Ht.
+  - simpl in Ht. simpl. assert (t = 0) by lra. subst. ring.
+  - destruct ps as [|p0 ps]; [simpl in Hlen; lia|].
+    destruct ts as [|t1 ts].
+    + simpl in Ht. destruct ps; [|simpl in Hlen; lia]. simpl. assert (t = t0) by lra. subst. ring.
+    + destruct ps as [|p1 ps]; [simpl in Hlen; lia|].
+      destruct Hc as [Hd Hc]. destruct Hinc as [H01 Hinc].
+      rewrite arclen_cons. cbn [hd] in *.
+      change (last (t0 :: t1 :: ts) 0) with (last (t1 :: ts) 0) in Ht.
+      assert (Hdd : dist p0 p1 = (t1 - t0) * L) by (rewrite Hd; field; lra).
+      destruct (Rle_dec t t1) as [Hle|Hgt].
+      * rewrite (arclen_before (t1 :: ts) (p1 :: ps) t Hinc) by (simpl; lra).
+        rewrite clamp01_mid by (apply quot_mid; lra). rewrite Hdd. field. lra.
+      * rewrite (IH (p1 :: ps) t Hinc) by (try assumption; simpl in *; try lia; lra).
+        rewrite clamp01_hi by (apply quot_hi; lra). cbn [hd]. rewrite Hdd. ring.
+Qed.
+
+Lemma chordal_cumlen L : L <> 0 -> forall ps acc h, h = acc / L ->
+  chordal L (h :: map (fun s => s / L) (cumlen acc ps)) ps.
+Proof.
+  intros HL. induction ps as [|a ps IH]; intros acc h Hh; [exact I|].
+  destruct ps as [|b ps]; [exact I|].
+  change (cumlen acc (a :: b :: ps)) with ((acc + dist a b) :: cumlen (acc + dist a b) (b :: ps)).
+  cbn [map]. split.
+  - rewrite Hh. field. exact HL.
+  - apply IH. reflexivity.
+Qed.
+
+Lemma arclen_chord_params ps t :
+  0 < polylen ps -> incr (chord_params ps) -> length ps = length (chord_params ps) ->
+  in_range (chord_params ps) t -> arclen (chord_params ps) ps t = t * polylen ps.
+Proof.
+  intros HL Hinc Hlen Ht.
+  rewrite (arclen_chordal (polylen ps) HL (chord_params ps) ps t Hinc Hlen).
+  - unfold chord_params. cbn [hd]. ring.
+  - unfold chord_params. apply chordal_cumlen; [lra|]. unfold Rdiv. ring.
+  - exact Ht.
+Qed.
+
+(** the length between two parameters is the fraction |b - a| of the total length *)
+Lemma il_length_chord_params ps a b :
+  0 < polylen ps -> incr (chord_params ps) -> length ps = length (chord_params ps) -> (2 <= length (chord_params ps))%nat ->
+  in_range (chord_params ps) a -> in_range (chord_params ps) b ->
+  il_length (lin_point (chord_params ps) ps) (chord_params ps) a b = Rabs (b - a) * polylen ps.
+Proof.
+  intros HL Hinc Hlen H2 Ha Hb.
+  rewrite il_length_arclen by assumption. rewrite !arclen_chord_params by assumption.
+  replace (b * polylen ps - a * polylen ps) with ((b - a) * polylen ps) by ring.
+  rewrite Rabs_mult. f_equal. apply Rabs_pos_eq. lra.
+Qed.
+
+(** the hypotheses are satisfiable (the three-point curve of the refutation, whose chord parameters are 0, 10/14, 1) *)
+Lemma old_d01 : dist (0, 0, 0) (10, 0, 0) = 10.
+Proof.
+  cbv [dist norm norm2 vsub dot vx vy vz fst snd].
+  replace ((0 - 10) * (0 - 10) + (0 - 0) * (0 - 0) + (0 - 0) * (0 - 0)) with (10 * 10) by ring.
+  rewrite sqrt_square by lra. reflexivity.
+Qed.
+Lemma old_d12 : dist (10, 0, 0) (10, 4, 0) = 4.
+Proof.
+  cbv [dist norm norm2 vsub dot vx vy vz fst snd].
+  replace ((10 - 10) * (10 - 10) + (0 - 4) * (0 - 4) + (0 - 0) * (0 - 0)) with (4 * 4) by ring.
+  rewrite sqrt_square by lra. reflexivity.
+Qed.
+Example chord_params_example :
+  0 < polylen old_ps /\ incr (chord_params old_ps) /\ length old_ps = length (chord_params old_ps)
+  /\ in_range (chord_params old_ps) (1 / 2).
+Proof.
+  rewrite old_polyline_value. unfold in_range, chord_params. rewrite old_polyline_value.
+  unfold old_ps. cbn [cumlen map hd last length]. rewrite old_d01, old_d12. cbn [incr].
+  repeat split; try reflexivity; lra.
+Qed.
